@@ -7,16 +7,16 @@ suffix, `junk<k>`, `zz<k>.snp`, `failed-parts`; ids decimal; paths joined by `/`
 
   steps <fresh> <op>...                      step list of the history, one segment per op, segments joined by ` | `
   kill <cut> <fresh> <op>...                 volatile tree after `cut` steps + `recover` of it
+  pendx <cut> | <step>; <step>; ...          the same for an explicit step list (a recorded syscall trace)
+  powerx <cut> <mask> <data> | <step>; ...   the same for an explicit step list
   pend <cut> <fresh> <op>...                 pending directory operations and un-fsynced inodes after `cut` steps
   power <cut> <mask> <data> <fresh> <op>...  durable tree + the pending ops whose bit in `mask` is 1, data choice
                                              `<ino>:<len>,...` (`-` none) + `recover` of it
-  rec <entry>...                             `recover` of an explicit tree (entries `path/` or `path=<tok.tok..>`)
+  rec <entry>...                             `recover` || `recoverLegacy` of an explicit tree (entries `path/` or `path=<tok.tok..>`)
   reclegacy <entry>...                       the same with `initTSTable` as written
 -/
 
-def pfileName : PFile → String
-  | .mt => "meta.bin" | .primary => "primary.bin" | .timestamps => "timestamps.bin" | .fv => "fv.bin"
-  | .tf => "tf1.tf" | .tfm => "tf1.tfm" | .tagType => "tag.type" | .metadata => "metadata.json"
+def pfileName (f : PFile) : String := f.fileName
 
 def showName : Name → String
   | .part id => s!"p{id}"
@@ -138,6 +138,38 @@ def showDOp : DOp Name → String
   | .del p => s!"del {showPath p}"
   | .ren a b => s!"ren {showPath a} {showPath b}"
 
+def parseStep (s : String) : Option Step :=
+  match words s with
+  | ["mkdir", p] => (parsePath p).map Step.mkdir
+  | ["create", p] => (parsePath p).map Step.create
+  | ["write", p, c] => do pure (Step.write (← parsePath p) (← parseToks c))
+  | ["fsync", p] => (parsePath p).map Step.fsync
+  | ["close", p] => (parsePath p).map Step.close
+  | ["rename", a, b] => do pure (Step.rename (← parsePath a) (← parsePath b))
+  | ["fsyncdir", p] => (parsePath p).map Step.fsyncdir
+  | ["unlink", p] => (parsePath p).map Step.unlink
+  | ["rmdir", p] => (parsePath p).map Step.rmdir
+  | _ => none
+
+/-- explicit step lists: `<step>; <step>; ...` -/
+def parseSteps (s : String) : Option (List Step) :=
+  ((s.splitOn ";").filter (fun x => !(words x).isEmpty)).mapM parseStep
+
+def pendLine (s : St) : String :=
+  let inos := (List.range s.next).filter (fun i => s.ddataOf i != s.vdataOf i)
+  let ds := ",".intercalate (inos.map (fun i => s!"{i}:{(s.ddataOf i).length}:{(s.vdataOf i).length}"))
+  s!"{"; ".intercalate (s.pend.map showDOp)} || {if ds.isEmpty then "-" else ds}"
+
+def powerLine (s : St) (mask : String) (choice : List (Nat × Nat)) : String :=
+  let bits := mask.toList
+  let sub := (s.pend.zip (bits ++ List.replicate s.pend.length '0')).filterMap
+    (fun ob => if ob.2 == '1' then some ob.1 else none)
+  let data := fun i => match choice.find? (·.1 == i) with
+    | some (_, n) => (s.vdataOf i).take (max n (s.ddataOf i).length)
+    | none => s.ddataOf i
+  let ns := applyOps sub s.dur
+  s!"{showTreeIno ns data} || {showRec (recover (resolve ns data))} || {showRec (recoverLegacy (resolve ns data))}"
+
 def handle (line : String) : String :=
   match words line with
   | "steps" :: rest =>
@@ -148,7 +180,7 @@ def handle (line : String) : String :=
     match cut.toNat?, parseHist rest with
     | some k, some (t, os) =>
       let s := run ({} : St) ((histSteps t os).take k)
-      s!"{showTreeIno s.vol s.vdataOf} || {showRec (recover (crashKill s))}"
+      s!"{showTreeIno s.vol s.vdataOf} || {showRec (recover (crashKill s))} || {showRec (recoverLegacy (crashKill s))}"
     | _, _ => "bad-op"
   | "pend" :: cut :: rest =>
     match cut.toNat?, parseHist rest with
@@ -169,11 +201,20 @@ def handle (line : String) : String :=
         | some (_, n) => (s.vdataOf i).take (max n (s.ddataOf i).length)
         | none => s.ddataOf i
       let ns := applyOps sub s.dur
-      s!"{showTreeIno ns data} || {showRec (recover (resolve ns data))}"
+      s!"{showTreeIno ns data} || {showRec (recover (resolve ns data))} || {showRec (recoverLegacy (resolve ns data))}"
+    | _, _, _ => "bad-op"
+  | "pendx" :: cut :: _ =>
+    -- `pendx <cut> | <steps>`: the same on an explicit step list (a recorded trace)
+    match cut.toNat?, parseSteps ((line.splitOn "|").getD 1 "") with
+    | some k, some steps => pendLine (run ({} : St) (steps.take k))
+    | _, _ => "bad-op"
+  | "powerx" :: cut :: mask :: dc :: _ =>
+    match cut.toNat?, parseDataChoice dc, parseSteps ((line.splitOn "|").getD 1 "") with
+    | some k, some choice, some steps => powerLine (run ({} : St) (steps.take k)) mask choice
     | _, _, _ => "bad-op"
   | "rec" :: es =>
     match es.mapM parseEntry with
-    | some t => showRec (recover t)
+    | some t => s!"{showRec (recover t)} || {showRec (recoverLegacy t)}"
     | none => "bad-op"
   | "reclegacy" :: es =>
     match es.mapM parseEntry with
